@@ -95,6 +95,10 @@ var c10PointOps = map[string]bool{
 	"Clear": true, "Size": true, "IsEmpty": true, "Size1": true, "Size2": true,
 }
 
+// longKeys: string keys are 40+ bytes in this run (set per run from the tape; the model
+// replays with the same setting because it is stored in the run's data)
+var longKeys bool
+
 var linkedKeyType = reflect.TypeOf((*hmap.LinkedKey)(nil)).Elem()
 
 type c10Op struct {
@@ -113,6 +117,7 @@ type c10Data struct {
 	Variant  int      `json:"variant"`
 	Max      int      `json:"max"`
 	Prefill  int      `json:"prefill"`
+	LongKeys bool     `json:"long_keys,omitempty"`
 	Ops      []*c10Op `json:"ops"`
 	Label    string   `json:"label,omitempty"`
 	Waiting  string   `json:"waiting,omitempty"`
@@ -142,7 +147,12 @@ func mkArgs(name string, mt reflect.Type, key, val int) ([]reflect.Value, bool) 
 			args[i] = reflect.ValueOf(float32(x))
 		case reflect.String:
 			if isKey {
-				args[i] = reflect.ValueOf("k" + strconv.Itoa(x))
+				if longKeys {
+					// long keys: hashing them is not a one-liner (caches, chunked loops)
+					args[i] = reflect.ValueOf("key-" + strconv.Itoa(x) + "-" + strings.Repeat("k", 40))
+				} else {
+					args[i] = reflect.ValueOf("k" + strconv.Itoa(x))
+				}
 			} else {
 				args[i] = reflect.ValueOf("v" + strconv.Itoa(x))
 			}
@@ -428,6 +438,7 @@ type c10Plan struct {
 
 func c10Setup(d *c10Data) (interface{}, []int) {
 	t := c10Types[d.ti]
+	longKeys = d.LongKeys
 	obj := t.New(d.Variant)
 	keys := []int{1, 2, 3, 4}
 	if d.Prefill > 0 {
@@ -448,6 +459,7 @@ func c10LinBody(rc *RunCtx) {
 	t := c10Types[d.ti]
 	d.Type = t.Name
 	d.Variant = simrt.Choose(t.Variants)
+	d.LongKeys = simrt.Chance(1, 2)
 	rt := reflect.TypeOf(t.New(0))
 	_, hasMax := rt.MethodByName("SetMax")
 	switch simrt.Choose(4) {
